@@ -39,11 +39,45 @@ type Fault struct {
 var ErrInjected = errors.New("injected storage fault")
 
 func (f *Fault) err() error {
-	if f.Kind == "deadline" {
+	switch f.Kind {
+	case "deadline":
 		return context.DeadlineExceeded
+	case "oidc": // a storage that reports its failure as a ready-made OAuth error
+		return oidc.ErrServerError().WithParent(ErrInjected).WithDescription("injected storage fault")
+	case "oidc-wrapped":
+		return fmt.Errorf("storage: %w", oidc.ErrInvalidRequest().WithParent(ErrInjected).WithDescription("injected storage fault"))
 	}
 	return ErrInjected
 }
+
+// refuse builds the error with which the storage reports one of its own refusals (unknown client, wrong secret, unknown
+// code / token ...) in the style the case chose: a plain Go error (default), a matching *oidc.Error, such an error wrapped
+// in a plain one, or a server_error. The interface leaves the choice to the storage; the library must treat all alike.
+func (s *Store) refuse(class, msg string) error {
+	var oe *oidc.Error
+	switch class {
+	case "client":
+		oe = oidc.ErrInvalidClient()
+	case "request":
+		oe = oidc.ErrInvalidRequest()
+	case "grant":
+		oe = oidc.ErrInvalidGrant()
+	default:
+		oe = oidc.ErrAccessDenied()
+	}
+	switch s.Policy.ErrStyle {
+	case "oidc":
+		return oe.WithDescription(msg)
+	case "wrapped":
+		return fmt.Errorf("storage: %w", oe.WithDescription(msg))
+	case "server":
+		return oidc.ErrServerError().WithDescription(msg)
+	}
+	return errors.New(msg)
+}
+
+// ErrStyles are the values of StorePolicy.ErrStyle.
+var ErrStyles = []string{"", "oidc", "wrapped", "server"}
 
 // ---------------------------------------------------------------------------
 // Stored objects
@@ -209,6 +243,8 @@ type StorePolicy struct {
 	// and RevokeToken finds refresh records by it only (as in storages whose refresh ids differ from the token value).
 	RefreshIDs bool `json:"refresh_ids,omitempty"`
 	ACR                  string   `json:"acr,omitempty"`
+	// ErrStyle: how the storage reports its own refusals (see Store.refuse): "" plain error, "oidc", "wrapped", "server"
+	ErrStyle string `json:"err_style,omitempty"`
 }
 
 // ---------------------------------------------------------------------------
@@ -362,7 +398,7 @@ func (s *Store) AuthRequestByID(ctx context.Context, id string) (op.AuthRequest,
 	defer s.mu.Unlock()
 	a, ok := s.authReqs[id]
 	if !ok {
-		return nil, errors.New("auth request not found")
+		return nil, s.refuse("request", "auth request not found")
 	}
 	if f != nil {
 		return s.wrapAR(a), f.err()
@@ -379,11 +415,11 @@ func (s *Store) AuthRequestByCode(ctx context.Context, code string) (op.AuthRequ
 	defer s.mu.Unlock()
 	id, ok := s.codes[code]
 	if !ok {
-		return nil, errors.New("code invalid or expired")
+		return nil, s.refuse("grant", "code invalid or expired")
 	}
 	a, ok := s.authReqs[id]
 	if !ok {
-		return nil, errors.New("auth request not found")
+		return nil, s.refuse("request", "auth request not found")
 	}
 	if f != nil {
 		return s.wrapAR(a), f.err()
@@ -399,7 +435,7 @@ func (s *Store) SaveAuthCode(ctx context.Context, id, code string) error {
 	s.mu.Lock()
 	defer s.mu.Unlock()
 	if _, ok := s.authReqs[id]; !ok {
-		return errors.New("auth request not found")
+		return s.refuse("request", "auth request not found")
 	}
 	s.codes[code] = id
 	if f != nil {
@@ -485,11 +521,11 @@ func (s *Store) CreateAccessAndRefreshTokens(ctx context.Context, req op.TokenRe
 	if current != "" {
 		old, ok := s.Refresh[current]
 		if !ok || old.Dead || time.Now().After(old.Exp) {
-			return "", "", time.Time{}, errors.New("invalid refresh token")
+			return "", "", time.Time{}, s.refuse("grant", "invalid refresh token")
 		}
 		rr, isRefresh := req.(*RefreshReq)
 		if !isRefresh || rr.rt != old {
-			return "", "", time.Time{}, errors.New("refresh token does not belong to this request")
+			return "", "", time.Time{}, s.refuse("grant", "refresh token does not belong to this request")
 		}
 		old.Dead = true
 		if at, ok := s.Tokens[old.AccessID]; ok {
@@ -541,7 +577,7 @@ func (s *Store) TokenRequestByRefreshToken(ctx context.Context, token string) (o
 	defer s.mu.Unlock()
 	rt, ok := s.Refresh[token]
 	if !ok || rt.Dead || time.Now().After(rt.Exp) {
-		return nil, errors.New("invalid refresh token")
+		return nil, s.refuse("grant", "invalid refresh token")
 	}
 	r := &RefreshReq{rt: rt, scopes: slices.Clone(rt.Scopes)}
 	if f != nil {
@@ -693,7 +729,7 @@ func (s *Store) GetClientByClientID(ctx context.Context, id string) (op.Client, 
 	defer s.mu.Unlock()
 	c, ok := s.Clients[id]
 	if !ok {
-		return nil, errors.New("client not found")
+		return nil, s.refuse("client", "client not found")
 	}
 	if f != nil {
 		return AsOPClient(c), f.err()
@@ -710,10 +746,10 @@ func (s *Store) AuthorizeClientIDSecret(ctx context.Context, id, secret string) 
 	defer s.mu.Unlock()
 	c, ok := s.Clients[id]
 	if !ok {
-		return errors.New("client not found")
+		return s.refuse("client", "client not found")
 	}
 	if c.Secret == "" || c.Secret != secret {
-		return errors.New("invalid secret")
+		return s.refuse("client", "invalid secret")
 	}
 	return nil
 }
@@ -773,16 +809,16 @@ func (s *Store) SetUserinfoFromScopes(ctx context.Context, ui *oidc.UserInfo, us
 func (s *Store) liveToken(tokenID, subject string) (*AccessTok, error) {
 	t, ok := s.Tokens[tokenID]
 	if !ok {
-		return nil, errors.New("token unknown")
+		return nil, s.refuse("token", "token unknown")
 	}
 	if t.Revoked {
-		return nil, errors.New("token revoked")
+		return nil, s.refuse("token", "token revoked")
 	}
 	if time.Now().After(t.Exp) {
-		return nil, errors.New("token expired")
+		return nil, s.refuse("token", "token expired")
 	}
 	if t.Subject != subject {
-		return nil, errors.New("subject mismatch")
+		return nil, s.refuse("token", "subject mismatch")
 	}
 	return t, nil
 }
@@ -849,7 +885,7 @@ func (s *Store) SetIntrospectionFromToken(ctx context.Context, ir *oidc.Introspe
 		return err
 	}
 	if !slices.Contains(t.Audience, clientID) {
-		return errors.New("caller not in audience")
+		return s.refuse("token", "caller not in audience")
 	}
 	fill(t)
 	return nil
@@ -886,11 +922,11 @@ func (s *Store) GetKeyByIDAndClientID(ctx context.Context, keyID, clientID strin
 	defer s.mu.Unlock()
 	c, ok := s.Clients[clientID]
 	if !ok {
-		return nil, errors.New("client not found")
+		return nil, s.refuse("client", "client not found")
 	}
 	kn, ok := c.Keys[keyID]
 	if !ok {
-		return nil, errors.New("key not found")
+		return nil, s.refuse("client", "key not found")
 	}
 	jwk := Key(kn).JWK(keyID, "sig", "")
 	if f != nil {
@@ -935,7 +971,7 @@ func (s *Store) clientCredentials(ctx context.Context, id, secret string) (op.Cl
 	defer s.mu.Unlock()
 	c, ok := s.Clients[id]
 	if !ok || !c.Service || c.Secret == "" || c.Secret != secret {
-		return nil, errors.New("wrong service user or password")
+		return nil, s.refuse("client", "wrong service user or password")
 	}
 	if f != nil {
 		return AsOPClient(c), f.err()
@@ -951,7 +987,7 @@ func (s *Store) clientCredentialsTokenRequest(ctx context.Context, id string, sc
 	s.mu.Lock()
 	defer s.mu.Unlock()
 	if c, ok := s.Clients[id]; !ok || !c.Service {
-		return nil, errors.New("wrong service user or password")
+		return nil, s.refuse("client", "wrong service user or password")
 	}
 	r := &CCReq{ClientID: id, Scopes: slices.Clone(scopes)}
 	if f != nil {
@@ -1062,7 +1098,7 @@ func (s *Store) verifyThird(ctx context.Context, token string, tt oidc.TokenType
 	if s.Policy.TE.VerifyThird && strings.HasPrefix(token, "third:") {
 		return token, strings.TrimPrefix(token, "third:"), map[string]any{"third": true}, nil
 	}
-	return "", "", nil, errors.New("unknown third party token")
+	return "", "", nil, s.refuse("token", "unknown third party token")
 }
 
 func (s *Store) storeDeviceAuthorization(ctx context.Context, clientID, deviceCode, userCode string, expires time.Time, scopes []string) error {
@@ -1073,7 +1109,7 @@ func (s *Store) storeDeviceAuthorization(ctx context.Context, clientID, deviceCo
 	s.mu.Lock()
 	defer s.mu.Unlock()
 	if _, ok := s.Clients[clientID]; !ok {
-		return errors.New("client not found")
+		return s.refuse("client", "client not found")
 	}
 	if _, ok := s.userCode[userCode]; ok {
 		return op.ErrDuplicateUserCode
@@ -1099,7 +1135,7 @@ func (s *Store) getDeviceAuthorizationState(ctx context.Context, clientID, devic
 	defer s.mu.Unlock()
 	e, ok := s.Devices[deviceCode]
 	if !ok || e.State.ClientID != clientID {
-		return nil, errors.New("device code not found for client")
+		return nil, s.refuse("grant", "device code not found for client")
 	}
 	if f != nil {
 		return e.State, f.err()
